@@ -112,7 +112,7 @@ Definition fn_model_bad (k : fn_case) : bool :=
   match apply_fn (fc_name k) (fc_args k), fc_obs k with
   | FOk v, FoVal w => negb (value_close v w)
   | FErr, FoErr => false
-  | FUnknown, _ => false                       (* not modelled (ndiff, log, sqrt) *)
+  | FUnknown, _ => false                       (* not modelled (ndiff, log, sqrt): ndiff is judged by the oracle only *)
   | _, _ => true
   end.
 
@@ -189,6 +189,15 @@ Definition spec_fn (count_nil : bool) (name : string) (args : list value) : opti
   else if String.eqb name "floor" then scalar o_floor
   else if String.eqb name "ceil" then scalar (fun x => - o_floor (- x))
   else if String.eqb name "round" then scalar o_round
+  else if str_in name ["ndiff"; "normalized_difference"]%string then
+    (* the distance to the reference (second argument), relative to the
+       reference's size: never negative; no statement for a zero reference *)
+    match args with
+    | [VNil; _] | [_; VNil] => Some (FoVal VNil)
+    | [VNum x; VNum y] => if Qeq_bool y 0 then None
+                          else Some (FoVal (VNum (o_abs (x - y) / o_abs y)))
+    | _ => Some FoErr
+    end
   else None.
 
 Definition fobs_agree (a b : fobs) : bool :=
